@@ -35,22 +35,22 @@ var cfgs = []cfg{
 		gopts: func(r *core.Rng, i int) hist.GenOpts {
 			return hist.GenOpts{Set: gen.SetOpts{FailMembers: 1 + r.Intn(2)}, MaxOps: 12, Clones: i%4 == 0}
 		},
-		n: func(c *core.Ctx) int { return c.N(6000, 150000) }},
+		n: func(c *core.Ctx) int { return c.N(40000, 400000) }},
 	{id: "C06", equality: true,
 		gopts: func(r *core.Rng, i int) hist.GenOpts {
 			return hist.GenOpts{Set: gen.SetOpts{FailMembers: r.Intn(2)}, MaxOps: 14}
 		},
-		n: func(c *core.Ctx) int { return c.N(6000, 150000) }},
+		n: func(c *core.Ctx) int { return c.N(40000, 400000) }},
 	{id: "C07", equality: true, freeze: true,
 		gopts: func(r *core.Rng, i int) hist.GenOpts {
 			return hist.GenOpts{Set: gen.SetOpts{FailMembers: r.Intn(2)}, MaxOps: 16, Clones: true, ParseAfter: true, ExtraDefs: true}
 		},
-		n: func(c *core.Ctx) int { return c.N(6000, 150000) }},
+		n: func(c *core.Ctx) int { return c.N(40000, 400000) }},
 	{id: "C08", total: true,
 		gopts: func(r *core.Rng, i int) hist.GenOpts {
 			return hist.GenOpts{Set: gen.SetOpts{FailMembers: r.Intn(3), Wild: true}, MaxOps: 18, Clones: true, ParseAfter: true, ExtraDefs: true, WildOps: true}
 		},
-		n: func(c *core.Ctx) int { return c.N(20000, 600000) }},
+		n: func(c *core.Ctx) int { return c.N(100000, 1500000) }},
 }
 
 var rules = map[string]string{
